@@ -69,11 +69,12 @@ pub fn execute(
 ) -> Result<Exec, String> {
     let backend = scn.backend;
     let opts = scn.opts.clone();
+    let trace_logs = scn.trace_logs;
     if backend == Backend::RealFs {
         return execute_real(&opts, &entries, walk_seed, hash_seed, rerun);
     }
     if backend == Backend::RealLib {
-        return execute_real_lib(opts, entries, walk_seed, hash_seed, rerun);
+        return execute_real_lib(opts, entries, walk_seed, hash_seed, rerun, trace_logs);
     }
     exec::on_carrier(hash_seed, move || {
         let store = Store::new(backend, walk_seed, &entries);
@@ -83,6 +84,7 @@ pub fn execute(
             fs.set_budget(budget_for(entries.len()));
         }
         let resources = store.resources();
+        exec::set_trace_logs(trace_logs);
         let _ = exec::take_captured_errors();
         let outcome = exec::fresh_process(&resources, &opts);
         let error_logs: Vec<String> = exec::take_captured_errors()
@@ -152,6 +154,7 @@ fn execute_real_lib(
     walk_seed: u64,
     hash_seed: u64,
     rerun: bool,
+    trace_logs: bool,
 ) -> Result<Exec, String> {
     use crate::tierb;
     let guard = CWD_LOCK.lock().unwrap_or_else(|e| e.into_inner());
@@ -164,6 +167,7 @@ fn execute_real_lib(
             return Err("cannot enter the scratch directory".to_owned());
         }
         let resources = darklua_core::Resources::from_file_system();
+        exec::set_trace_logs(trace_logs);
         let _ = exec::take_captured_errors();
         let outcome = exec::fresh_process(&resources, &opts);
         let error_logs: Vec<String> = exec::take_captured_errors()
@@ -1381,6 +1385,17 @@ pub fn generate(seed: u64) -> C11Scenario {
             parts.skip_files.push(p);
         }
     }
+    // a rule that fails for every file: the header file of `append_text_comment` does not
+    // exist (it is read with std::fs, outside the simulated file system): every source has
+    // to be reported, whichever is processed first
+    let header_missing = !minify && rc.chance(1, 25);
+    if header_missing {
+        let rule = "{\"rule\":\"append_text_comment\",\"file\":\"verif-no-such-header.txt\"}".to_owned();
+        match parts.rules.as_mut() {
+            Some(rules) => rules.push(rule),
+            None => parts.rules = Some(vec![rule]),
+        }
+    }
     let config_text = parts.to_text();
     let mut invocation =
         gen::gen_invocation(&mut rk, &project, &config_text, true, !real, backend, true);
@@ -1425,6 +1440,10 @@ pub fn generate(seed: u64) -> C11Scenario {
     }
 
     let mut bad_files: Vec<String> = Vec::new();
+    if header_missing {
+        // not a file of the tree: it only marks the project as one that is meant to fail
+        bad_files.push("verif-no-such-header.txt".to_owned());
+    }
     let unwritable: Vec<String> = Vec::new();
     let mut faults: Vec<FaultRule> = Vec::new();
     let mut transient = false;
@@ -1727,6 +1746,7 @@ pub fn generate(seed: u64) -> C11Scenario {
         alt_hash_seed: ro.next_u64(),
         keep_bad_in_reference: project.convert,
         maybe_bad,
+        trace_logs: false,
     };
     // extra entries that do not depend on the layout first (they define the layout)
     for e in extra.iter().filter(|e| !e.path.starts_with('@')) {
@@ -1893,6 +1913,7 @@ pub fn generate(seed: u64) -> C11Scenario {
             }
         }
     }
+    scn.trace_logs = !real && rk.chance(1, 10);
     // both default configuration files sit in the working directory although the run has
     // its own configuration (an object, `--config <path>`, `darklua minify`): they must not
     // even be looked at
